@@ -122,8 +122,13 @@ impl Property for C06 {
                 }
             }
             let current = wal_number(&exec.driver.tracer.cur_name).unwrap_or(0);
-            // B: file current when the call began; for open: the file holding the end of the log = writer file
-            let begin = if matches!(step.cop, COp::Restart { .. }) { current } else { begin_file };
+            // B: file current when the call began; for open: the file holding the end of the log when open positioned
+            // the writer there (recovery's own GC may then roll over into a newer file while it pins that one)
+            let begin = if matches!(step.cop, COp::Restart { .. }) {
+                wal_number(&exec.driver.tracer.writer_at_open).unwrap_or(current)
+            } else {
+                begin_file
+            };
             let bound = oldest_retained.map_or(begin, |oldest| oldest.min(begin));
             let entries = list_dir(&dir)?;
             let numbers: Vec<u64> = entries.iter().filter_map(|(name, _)| wal_number(name)).collect();
